@@ -1,5 +1,443 @@
-"""Verus back end: mechanical extraction of real functions into one file + contract splice (filled in below)."""
+"""Verus back end: mechanical extraction of real functions from /repo's CURRENT text into one file per unit,
+contract splice keyed by item name / loop ordinal / exact snippet (never line numbers), run `verus`.
+
+Unit files: /verif/verus/<Cxx>_<name>.vrs.  Everything not starting with `//@` is copied verbatim (spec functions,
+lemmas, imported contracts).  Directives:
+
+  //@unit props=C19,C07 name=cache_table tier=quick
+  //@struct file=src/x.rs name=Foo derive="Copy, Clone"        extract a struct/enum; derives replaced by the list (V1 pub, V2)
+  //@const  file=src/x.rs name=FOO                              extract a const/static/type item verbatim (made pub)
+  //@impl   file=src/x.rs header="regex on impl header" emit="impl<T: Copy> Foo<T>"   open an impl block (emit = header to print; default = source header)
+  //@fn name=get ob=O19.2 kind=proof ret=r desc="..."          extract fn `get` from the current impl (or top level with file=)
+  //@| <contract line>                                          goes between signature and body
+  //@loop 0| <clause>                                           goes at the head of the k-th loop of the fn (source order)
+  //@loopstart 0| <stmt>    //@loopend 0| <stmt>                first / last statement of that loop's body
+  //@entry| <stmt>                                              first statement of the fn body
+  //@before `snippet`| <stmt>    //@after `snippet`| <stmt>     snippet must occur exactly once in the fn body, else UNDECIDED
+  //@replace `old` => `new`                                     V5 outlining / V6 type rewrites; `old` must occur exactly once
+  //@endfn
+  //@endimpl
+  //@ob name=lemma_x kind=lemma desc="..."                      a verbatim proof fn that counts as an obligation
+  //@canary name=must_fail_x                                    a verbatim proof fn that MUST be rejected (vacuity guard)
+"""
+import json
+import re
+import time
+from pathlib import Path
+
+import rustscan as rs
+import vf
+
+DIR = vf.VERUS_DIR
+
+
+def snip_re(snippet):
+    """snippets in unit files match the source text modulo whitespace runs"""
+    return re.compile(r"\s+".join(re.escape(t) for t in snippet.split()))
+
+
+def snip_count(body, snippet):
+    return len(snip_re(snippet).findall(body))
+
+
+def parse_kv(s):
+    return vf.parse_tags(s)
+
+
+def units_for(prop, tier):
+    out = []
+    for f in sorted(DIR.glob("*.vrs")):
+        head = f.read_text().split("\n", 1)[0]
+        if head.startswith("//@unit"):
+            d = parse_kv(head[7:])
+            if prop in d.get("props", "").split(",") and (tier == "thorough" or d.get("tier", "quick") == "quick"):
+                out.append((f, d))
+    return out
+
+
 def obligations(prop, tier):
-    return []
+    return [{"name": f.stem, "file": f, "meta": d} for f, d in units_for(prop, tier)]
+
+
+class Extractor:
+    def __init__(self, unit_path):
+        self.path = unit_path
+        self.log = []  # rewrite log (evidence)
+        self.obs = []  # obligations: dict(name, fn, kind, desc, vname)
+        self.assumptions = []
+        self.src_cache = {}
+
+    def src(self, rel):
+        if rel not in self.src_cache:
+            p = vf.REPO / rel
+            if not p.exists():
+                raise vf.Undecided("lost anchor: %s does not exist" % rel)
+            self.src_cache[rel] = p.read_text()
+        return self.src_cache[rel]
+
+    # -------------------------------------------------------------- rewrite rules on a function body
+    def v3_unchecked(self, body, fname):
+        """V3: unsafe { *X.get_unchecked(E) } -> X[E] ;  unsafe { X.get_unchecked_mut(E) } -> &mut X[E]"""
+        out = body
+        for _ in range(50):
+            m = re.search(r"unsafe\s*\{\s*(\*?)\s*([\w\.\s]+?)\s*\.\s*get_unchecked(_mut)?\s*\(", out)
+            if not m:
+                break
+            op = m.end() - 1
+            cp = rs.balanced_arg(out, op)
+            rest = out[cp + 1:]
+            m2 = re.match(r"\s*;?\s*\}", rest)
+            if cp < 0 or not m2:
+                raise vf.Undecided("V3: cannot parse unchecked access in %s" % fname)
+            recv = "".join(m.group(2).split())
+            idx = out[op + 1:cp].strip()
+            if m.group(3):  # _mut
+                new = ("&mut " if not m.group(1) else "") + "%s[%s]" % (recv, idx)
+            else:
+                new = ("" if m.group(1) else "&") + "%s[%s]" % (recv, idx)
+            old = out[m.start():cp + 1 + m2.end()]
+            out = out[:m.start()] + new + out[cp + 1 + m2.end():]
+            self.log.append({"rule": "V3", "fn": fname, "before": " ".join(old.split()), "after": new})
+        return out
+
+    def v8_push_unchecked(self, body, fname):
+        """V8: unsafe { L.push_unchecked(E); } -> assert(L.len() < MOVELIST_CAP); L.push(E);"""
+        out = body
+        for _ in range(50):
+            m = re.search(r"unsafe\s*\{\s*(\w+)\s*\.\s*push_unchecked\s*\(", out)
+            if not m:
+                break
+            op = m.end() - 1
+            cp = rs.balanced_arg(out, op)
+            m2 = re.match(r"\s*;\s*\}", out[cp + 1:])
+            if cp < 0 or not m2:
+                raise vf.Undecided("V8: cannot parse push_unchecked in %s" % fname)
+            arg = out[op + 1:cp]
+            new = "assert(%s@.len() < MOVELIST_CAP); %s.push(%s);" % (m.group(1), m.group(1), arg.strip())
+            old = out[m.start():cp + 1 + m2.end()]
+            out = out[:m.start()] + new + out[cp + 1 + m2.end():]
+            self.log.append({"rule": "V8", "fn": fname, "before": " ".join(old.split())[:200], "after": " ".join(new.split())[:200]})
+        return out
+
+    def v4_for_bitboard(self, body, fname, which):
+        """V4: `for P in E {B}` over a BitBoard (listed loop ordinals only) ->
+        `let mut it_k = E; loop { match it_k.next() { None => { break; } Some(P) => {B} } }`"""
+        out = body
+        # process from the last listed loop to the first so earlier offsets stay valid
+        for k in sorted(which, reverse=True):
+            loops = rs.loops_in(out, 0, len(out))
+            if k >= len(loops):
+                raise vf.Undecided("V4: loop#%d not found in %s" % (k, fname))
+            kw, bo, bc = loops[k]
+            head = out[kw:bo]
+            m = re.match(r"for\s+(.+?)\s+in\s+(.+?)\s*$", head, re.S)
+            if not m:
+                raise vf.Undecided("V4: loop#%d of %s is not a for loop" % (k, fname))
+            pat, expr = m.group(1), m.group(2)
+            inner = out[bo + 1:bc]
+            new = "let mut it_%d = %s; loop /*V4#%d*/ { match it_%d.next() { None => { /*V4none#%d*/ break; } Some(%s) => {%s} } }" % (k, expr, k, k, k, pat, inner)
+            self.log.append({"rule": "V4", "fn": fname, "loop": k, "before": " ".join(head.split()), "after": "let mut it_%d = %s; loop { match it_%d.next() { None => break, Some(%s) => {..body unchanged..} } }" % (k, expr, k, pat)})
+            out = out[:kw] + new + out[bc + 1:]
+        return out
+
+    # -------------------------------------------------------------- directive handlers
+    def do_struct(self, d):
+        text = self.src(d["file"])
+        kind = d.get("kind", "struct")
+        r = rs.find_item(text, kind, d["name"])
+        if not r:
+            raise vf.Undecided("lost anchor: %s %s in %s" % (kind, d["name"], d["file"]))
+        item = text[r[0]:r[1]]
+        before = item
+        # derives
+        item = re.sub(r"#\[derive\([^\)]*\)\]\s*", "", item)
+        item = re.sub(r"#\[repr\([^\)]*\)\]\s*", "", item)
+        item = re.sub(r"(?m)^\s*///.*\n", "", item)
+        if d.get("derive"):
+            item = "#[derive(%s)]\n" % d["derive"] + item
+        # V1: pub everywhere
+        item = re.sub(r"^(pub(\([^)]*\))?\s+)?(struct|enum)", r"pub \3", item.lstrip(), count=1, flags=re.M) if not item.lstrip().startswith("#") else re.sub(
+            r"\n(pub(\([^)]*\))?\s+)?(struct|enum)", r"\npub \3", item, count=1)
+        if kind == "struct":
+            item = re.sub(r"(?m)^(\s+)(pub(\([^)]*\))?\s+)?(\w+)\s*:", r"\1pub \4:", item)
+        if d.get("bounds_drop"):
+            for b in d["bounds_drop"].split(","):
+                item = item.replace(b.strip(), "")
+        self.log.append({"rule": "V1/V2", "item": d["name"], "before_derive": " ".join(re.findall(r"#\[derive\([^\)]*\)\]", before)), "after_derive": d.get("derive", "(none)")})
+        return item + "\n"
+
+    def do_const(self, d):
+        text = self.src(d["file"])
+        r = rs.find_item(text, d.get("kind", "const"), d["name"])
+        if not r:
+            raise vf.Undecided("lost anchor: const %s in %s" % (d["name"], d["file"]))
+        item = re.sub(r"(?m)^\s*///.*\n", "", text[r[0]:r[1]])
+        item = re.sub(r"^(pub(\([^)]*\))?\s+)?", "pub ", item.lstrip(), count=1)
+        return item + "\n"
+
+    def do_fn(self, d, sub, impl_ctx):
+        fname = d["name"]
+        if impl_ctx:
+            text, lo, hi = impl_ctx
+        else:
+            text = self.src(d["file"])
+            lo, hi = 0, len(text)
+        r = rs.find_fn_in(text, lo, hi, fname)
+        if not r or r[2] < 0:
+            raise vf.Undecided("lost anchor: fn %s" % fname)
+        item_start, sig_start, bo, bc = r
+        sig = " ".join(text[sig_start:bo].split())
+        body = text[bo + 1:bc]
+        qual = d.get("qual", "pub")
+        # return value name
+        if d.get("ret"):
+            m = re.search(r"->\s*(.+?)\s*(where\b.*)?$", sig)
+            if not m:
+                raise vf.Undecided("fn %s has no return type to name" % fname)
+            sig = sig[:m.start()] + "-> (%s: %s) %s" % (d["ret"], m.group(1), m.group(2) or "")
+        if d.get("rename"):
+            sig = re.sub(r"\bfn\s+" + re.escape(fname) + r"\b", "fn " + d["rename"], sig, count=1)
+        # strip comments inside body? keep them (harmless)
+        # V-rules
+        if d.get("v4"):
+            body = self.v4_for_bitboard(body, fname, [int(x) for x in d["v4"].split(",")])
+        body = self.v3_unchecked(body, fname)
+        body = self.v8_push_unchecked(body, fname)
+        contract, entry = [], []
+        loop_head, loop_start, loop_end = {}, {}, {}
+        befores, afters, replaces = [], [], []
+        for kind, arg, txt in sub:
+            if kind == "|":
+                contract.append(txt)
+            elif kind == "entry":
+                entry.append(txt)
+            elif kind == "loop":
+                loop_head.setdefault(int(arg), []).append(txt)
+            elif kind == "loopstart":
+                loop_start.setdefault(int(arg), []).append(txt)
+            elif kind == "loopend":
+                loop_end.setdefault(int(arg), []).append(txt)
+            elif kind == "before":
+                befores.append((arg, txt))
+            elif kind == "after":
+                afters.append((arg, txt))
+            elif kind == "replace":
+                replaces.append((arg, txt))
+        for old, new in replaces:
+            if snip_count(body, old) != 1:
+                raise vf.Undecided("lost anchor: replace snippet `%s` occurs %d times in %s (need exactly 1)" % (old, snip_count(body, old), fname))
+            body = snip_re(old).sub(lambda m_: new, body, count=1)
+            self.log.append({"rule": "V5/V6", "fn": fname, "before": old, "after": new})
+        # loops: insert from last to first
+        nloops = max([-1] + list(loop_head) + list(loop_start) + list(loop_end))
+        if nloops >= 0:
+            loops = rs.loops_in(body, 0, len(body))
+            if len(loops) <= nloops:
+                raise vf.Undecided("lost anchor: fn %s has %d loops, contract mentions loop#%d" % (fname, len(loops), nloops))
+            for k in range(len(loops) - 1, -1, -1):
+                kw, lbo, lbc = loops[k]
+                if k in loop_end:
+                    body = body[:lbc] + "\n" + "\n".join(loop_end[k]) + "\n" + body[lbc:]
+                if k in loop_start:
+                    body = body[:lbo + 1] + "\n" + "\n".join(loop_start[k]) + "\n" + body[lbo + 1:]
+                if k in loop_head:
+                    body = body[:lbo] + "\n" + "\n".join(loop_head[k]) + "\n" + body[lbo:]
+        for snip, txt in befores:
+            if snip_count(body, snip) != 1:
+                raise vf.Undecided("lost anchor: snippet `%s` occurs %d times in %s (need exactly 1)" % (snip, snip_count(body, snip), fname))
+            body = snip_re(snip).sub(lambda m_: txt + "\n" + m_.group(0), body, count=1)
+        for snip, txt in afters:
+            if snip_count(body, snip) != 1:
+                raise vf.Undecided("lost anchor: snippet `%s` occurs %d times in %s (need exactly 1)" % (snip, snip_count(body, snip), fname))
+            body = snip_re(snip).sub(lambda m_: m_.group(0) + "\n" + txt, body, count=1)
+        out = "%s %s\n%s\n{\n%s\n%s}\n" % (qual, sig, "\n".join("    " + c for c in contract), "\n".join(entry), body)
+        if d.get("ob"):
+            self.obs.append({"name": d.get("rename", fname), "id": d["ob"], "kind": d.get("kind", "proof"), "fn": d.get("fnlabel", fname), "desc": d.get("desc", ""),
+                             "bound": d.get("bound", "")})
+        return out
+
+    # -------------------------------------------------------------- driver
+    def build(self):
+        lines = self.path.read_text().split("\n")
+        out = []
+        impl_ctx = None
+        i = 1
+        n = len(lines)
+        while i < n:
+            ln = lines[i]
+            st = ln.strip()
+            if not st.startswith("//@"):
+                out.append(ln)
+                i += 1
+                continue
+            m = re.match(r"//@(\w+)\s*(.*)$", st)
+            cmd, rest = m.group(1), m.group(2)
+            if cmd == "struct":
+                out.append(self.do_struct(parse_kv(rest)))
+            elif cmd == "const":
+                out.append(self.do_const(parse_kv(rest)))
+            elif cmd == "impl":
+                d = parse_kv(rest)
+                text = self.src(d["file"])
+                found = rs.find_impl(text, d["header"])
+                if len(found) != 1:
+                    raise vf.Undecided("lost anchor: impl header /%s/ matches %d blocks in %s" % (d["header"], len(found), d["file"]))
+                header, lo, hi = found[0]
+                impl_ctx = (text, lo, hi)
+                emit = d.get("emit", header)
+                if emit != header:
+                    self.log.append({"rule": "V9", "before": header, "after": emit, "note": "trait-impl methods are emitted as inherent methods (Verus rejects requires on trait impls); bodies unchanged"})
+                out.append(emit + " {")
+            elif cmd == "endimpl":
+                impl_ctx = None
+                out.append("}")
+            elif cmd == "fn":
+                d = parse_kv(rest)
+                sub = []
+                i += 1
+                while i < n and not lines[i].strip().startswith("//@endfn"):
+                    s2 = lines[i].strip()
+                    m2 = re.match(r"//@(\||entry\||loop\s+(\d+)\||loopstart\s+(\d+)\||loopend\s+(\d+)\||before\s+`([^`]*)`\||after\s+`([^`]*)`\||replace\s+`([^`]*)`\s*=>\s*`([^`]*)`)\s?(.*)$", s2)
+                    if m2:
+                        tag = m2.group(1)
+                        txt = m2.group(9)
+                        if tag == "|":
+                            sub.append(("|", None, txt))
+                        elif tag.startswith("entry"):
+                            sub.append(("entry", None, txt))
+                        elif tag.startswith("loopstart"):
+                            sub.append(("loopstart", m2.group(3), txt))
+                        elif tag.startswith("loopend"):
+                            sub.append(("loopend", m2.group(4), txt))
+                        elif tag.startswith("loop"):
+                            sub.append(("loop", m2.group(2), txt))
+                        elif tag.startswith("before"):
+                            sub.append(("before", m2.group(5), txt))
+                        elif tag.startswith("after"):
+                            sub.append(("after", m2.group(6), txt))
+                        elif tag.startswith("replace"):
+                            sub.append(("replace", m2.group(7), m2.group(8)))
+                    elif s2 and not s2.startswith("//"):
+                        raise vf.Undecided("unit file %s: unparsable line inside //@fn: %s" % (self.path.name, s2))
+                    i += 1
+                out.append(self.do_fn(d, sub, impl_ctx if not d.get("file") else None))
+            elif cmd == "ob":
+                d = parse_kv(rest)
+                self.obs.append({"name": d["name"], "id": d.get("id", d["name"]), "kind": d.get("kind", "lemma"), "fn": d.get("fn", "spec"), "desc": d.get("desc", ""), "bound": ""})
+            elif cmd == "canary":
+                d = parse_kv(rest)
+                self.obs.append({"name": d["name"], "id": d["name"], "kind": "canary", "fn": "", "desc": d.get("desc", "must be rejected"), "bound": ""})
+            elif cmd == "assume":
+                self.assumptions.append(rest)
+            i += 1
+        return "\n".join(out) + "\n"
+
+
+def scan_assumptions(src):
+    out = set()
+    for m in re.finditer(r"#\[verifier::external_body\]\s*(pub\s+)?(proof\s+|exec\s+)?fn\s+(\w+)", src):
+        out.add("verus external_body (assumed contract): fn %s" % m.group(3))
+    for m in re.finditer(r"assume_specification\s*(<[^>]*>)?\s*\[\s*([^\]]+)\]", src):
+        out.add("verus assume_specification: %s" % " ".join(m.group(2).split()))
+    for m in re.finditer(r"\bassume\(", src):
+        out.add("verus: file contains assume(...) (listed per unit in the unit file)")
+    for m in re.finditer(r"\badmit\(\)", src):
+        out.add("verus: file contains admit()")
+    for m in re.finditer(r"#\[verifier::external_body\]\s*(pub\s+)?struct\s+(\w+)", src):
+        out.add("verus external_body type (opaque): %s" % m.group(2))
+    for m in re.finditer(r"pub\s+uninterp\s+spec\s+fn\s+(\w+)", src):
+        out.add("verus uninterpreted spec fn: %s (constrained only by imported contracts)" % m.group(1))
+    return out
+
+
+def run_unit(upath, meta, work: Path, logp: Path):
+    ex = Extractor(upath)
+    src = ex.build()
+    work.mkdir(parents=True, exist_ok=True)
+    outp = work / ("verus_%s.rs" % upath.stem)
+    outp.write_text(src)
+    # keep a copy for inspection
+    (vf.VERIF / "logs").mkdir(exist_ok=True)
+    (vf.VERIF / "logs" / outp.name).write_text(src)
+    rlimit = meta.get("rlimit", "30")
+    cmd = ["verus", str(outp), "--output-json", "--time", "--triggers-mode", "silent", "--rlimit", rlimit, "--multiple-errors", "1"]
+    t0 = time.time()
+    rc, out, wall = vf.sh(cmd, cwd=work, timeout=int(meta.get("timeout", "900")))
+    with open(logp, "a") as fh:
+        fh.write("$ " + " ".join(cmd) + "\n" + out[-30000:] + "\n")
+    # the JSON object is on stdout, diagnostics on stderr — both captured; locate the JSON
+    jtxt = None
+    k = out.find('{\n  "')
+    if k < 0:
+        k = out.find("{")
+    data = {}
+    for start in [m.start() for m in re.finditer(r"(?m)^\{", out)]:
+        try:
+            data = json.loads(out[start:out.rindex("}") + 1])
+            jtxt = True
+            break
+        except Exception:
+            continue
+    diag = out
+    vr = data.get("verification-results", {})
+    fb = {}
+    for mod in data.get("times-ms", {}).get("smt", {}).get("smt-run-module-times", []):
+        for f in mod.get("function-breakdown", []):
+            fb[f["function"]] = f
+    crate = outp.stem
+    recs = []
+    compile_error = (not jtxt) or vr.get("encountered-vir-error") or (re.search(r"(?m)^error(\[E\d+\])?: ", diag) and not fb)
+    # errors grouped by function span: map line numbers to functions of the generated file
+    fn_lines = []
+    for m in re.finditer(r"(?m)^\s*(pub\s+)?(proof\s+|spec\s+|exec\s+|open\s+spec\s+|closed\s+spec\s+)*fn\s+(\w+)", src):
+        fn_lines.append((src[:m.start()].count("\n") + 1, m.group(3)))
+    def fn_at(line):
+        cur = None
+        for l, nme in fn_lines:
+            if l <= line:
+                cur = nme
+        return cur
+    errs = {}
+    for m in re.finditer(r"(?m)^error: ([^\n]+)\n\s*--> [^:\n]+:(\d+):\d+", diag):
+        errs.setdefault(fn_at(int(m.group(2))), []).append(m.group(1))
+    for ob in ex.obs:
+        name = ob["name"]
+        f = next((v for k2, v in fb.items() if k2 == "%s::%s" % (crate, name) or k2.endswith("::" + name)), None)
+        msgs = errs.get(name, [])
+        if compile_error:
+            verdict, why = "undecided", "verus could not process the unit (unsupported construct / lost anchor / type error): " + "; ".join(re.findall(r"(?m)^error[^\n]*", diag)[:3])
+        elif f is None and not msgs:
+            verdict, why = ("undecided", "function %s not found in verus result" % name)
+        else:
+            ok = (f is None or f.get("success", False)) and not msgs
+            if ob["kind"] == "canary":
+                verdict, why = ("ok", "") if not ok else ("undecided", "canary proof was accepted: the unit is vacuous or verus is not checking")
+            elif ok:
+                verdict, why = "ok", ""
+            else:
+                text = "; ".join(msgs) if msgs else "verification failed"
+                if re.search(r"rlimit|resource limit|timed? ?out", text, re.I):
+                    verdict, why = "undecided", text
+                else:
+                    verdict, why = "violation", text
+        recs.append({"obligation": "%s::%s" % (upath.stem, name), "id": ob["id"], "backend": "verus/z3", "solver": "z3", "kind": ob["kind"], "function": ob["fn"], "desc": ob["desc"],
+                     "bound": ob.get("bound", ""), "verdict": verdict, "why": why, "seconds": (f or {}).get("time-micros", 0) / 1e6,
+                     "checks": 1, "output": "\n".join(l for l in diag.splitlines() if not l.startswith(("{", " ", "}")) or "-->" in l or "|" in l)[-3000:] if verdict != "ok" else "",
+                     "failed_checks": [{"description": x} for x in msgs], "unit": upath.stem})
+    trusted = scan_assumptions(src)
+    for a in ex.assumptions:
+        trusted.add("verus unit %s: %s" % (upath.stem, a))
+    info = {"unit": upath.stem, "generated_file": str(outp.name), "rewrites": ex.log, "verified": vr.get("verified"), "errors": vr.get("errors"), "wall_s": round(time.time() - t0, 1)}
+    return recs, trusted, info, " ".join(cmd[:1] + ["<generated>"] + cmd[2:])
+
+
 def run(prop, tier, obs, work, logp):
-    return [], set(), {}, ""
+    recs, trusted, ext, cmds = [], set(), [], []
+    for o in obs:
+        r, t, info, cmd = run_unit(o["file"], o["meta"], work / "verus", logp)
+        recs.extend(r)
+        trusted.update(t)
+        ext.append(info)
+        cmds.append(cmd)
+    trusted.add("Verus 0.2026.09.13 + Z3; extraction rules V1-V9 of DESIGN.md §3.2 (each application logged in extraction_diff)")
+    return recs, trusted, ext, " ;; ".join(sorted(set(cmds)))
